@@ -60,11 +60,15 @@ type Prop struct {
 	// restatements) and returns the number of vectors pushed through.
 	ValidateRun string // go test -run pattern in the overlay test file ("" = none)
 	TestFiles []string // extra _test overlay files under /verif/harness
+	Instrument []Instr // textual instrumentation of repo files, applied in the overlay (symbolic and native alike)
 	Bounds    []string
 	Assumptions []string
 	Outside   []string
 	Stubs     []string
 }
+
+// Instr replaces one exact occurrence of Old by New in a repository file.
+type Instr struct{ File, Old, New string }
 
 var props = map[string]*Prop{}
 
@@ -134,6 +138,30 @@ func newScratch(p *Prop, withTests bool) (*scratch, map[string][]byte, error) {
 		if err := add("zz_verif_"+strings.ToLower(strings.TrimSuffix(h, ".go"))+".go", b); err != nil {
 			return nil, nil, err
 		}
+	}
+	byFile := map[string][]byte{}
+	for _, in := range p.Instrument {
+		b, ok := byFile[in.File]
+		if !ok {
+			var err error
+			b, err = os.ReadFile(filepath.Join(repoDir, in.File))
+			if err != nil {
+				return nil, nil, err
+			}
+		}
+		if bytes.Count(b, []byte(in.Old)) != 1 {
+			return nil, nil, fmt.Errorf("instrumentation anchor not found exactly once in %s: %q", in.File, in.Old)
+		}
+		byFile[in.File] = bytes.Replace(b, []byte(in.Old), []byte(in.New), 1)
+	}
+	for f, b := range byFile {
+		real := filepath.Join(dir, "instr_"+strings.ReplaceAll(f, "/", "_"))
+		if err := os.WriteFile(real, b, 0o644); err != nil {
+			return nil, nil, err
+		}
+		v := filepath.Join(repoDir, f)
+		sc.overlay[v] = real
+		ov[v] = b
 	}
 	if withTests {
 		rt, err := os.ReadFile(filepath.Join(verifDir, "harness", "replay_test.go.txt"))
@@ -263,8 +291,9 @@ func runCheck(id, tier string) int {
 
 	sc, ov, err := newScratch(p, true)
 	if err != nil {
-		fmt.Fprintln(os.Stderr, "scratch:", err)
-		return 2
+		fmt.Println("INCONCLUSIVE: cannot prepare the harness overlay:", err)
+		writeEvidence(evPath, id, tier, seed, time.Since(t0), nil, nil, 0, []string{"overlay: " + err.Error()}, 0, p)
+		return 0
 	}
 	defer sc.cleanup()
 
